@@ -666,3 +666,35 @@ def declare_annotate(e):
     def m_out(eng, s, recv, name, args, kw, node):
         return [(s, Val(NONE, None))]      # writes to stdout: no file-system effect
     e.method_models[("OutStream", "*")] = m_out
+
+
+def declare_copyright(e):
+    """re.match/search/fullmatch(pattern_text, subject) with a literal pattern: compiled natively, then the language of
+    the compiled pattern (pyvc.rx); datetime.date.today().year as an uninterpreted constant."""
+    import re as _re
+    import datetime
+
+    def mk(method):
+        def model(eng, s, args, kw, node):
+            pat = args[0]
+            if not pat.is_py:
+                if z3.is_string_value(pat.t):
+                    pat = py(pat.t.as_string())
+                else:
+                    raise Unsupported("re function with a symbolic pattern")
+            flags = args[2].t if len(args) > 2 else (kw["flags"].t if "flags" in kw else 0)
+            return eng.re_call(s, _re.compile(pat.t, flags), method, [args[1]], {}, node)
+        return model
+    for m in ("match", "search", "fullmatch"):
+        e.func_models[getattr(_re, m)] = mk(m)
+
+    class Today:
+        pass
+
+    def m_today(eng, s, args, kw, node):
+        return [(s, py(Today()))]
+    e.func_models[datetime.date.today] = m_today
+
+    def today_year(eng, s, base, node):
+        return [(s, Val(INT, eng.uf("ghost_current_year", [], z3.IntSort())()))]
+    e.py_attr_models[(Today, "year")] = today_year
